@@ -23,6 +23,29 @@ HARNESS = {
     "shim_many0": dict(kind="shim", proved=False, fns=["nom::multi::many0"], bound="input <= 4 bytes, cheap element parser (u8 elements)"),
     "shim_map_parser": dict(kind="shim", proved=False, fns=["nom::combinator::map_parser"], bound="input <= 5 bytes, count usize full domain, cheap inner parser"),
 }
+def _leaf(name, fns, bound, kind="leaf", proved=False):
+    HARNESS[name] = dict(kind=kind, proved=proved, fns=fns if isinstance(fns, list) else [fns], bound=bound)
+
+for _n, _f in [("ske", "parse_tls_handshake_msg_serverkeyexchange"), ("serverdone", "parse_tls_handshake_msg_serverdone"),
+               ("certverify", "parse_tls_handshake_msg_certificateverify"), ("cke", "parse_tls_handshake_msg_clientkeyexchange (+ parse_tls_clientkeyexchange)"),
+               ("finished", "parse_tls_handshake_msg_finished")]:
+    _leaf("leaf_hs_" + _n, _f, "input <= 6 bytes, declared length usize full domain")
+_leaf("fd_hs_hello_request", "parse_tls_handshake_msg_hello_request", "4-byte buffer (body ignores its input)", "fd", True)
+_leaf("fd_hs_key_update", "parse_tls_handshake_msg_key_update", "3-byte buffer, symbolic length (reads 1 byte)", "fd", True)
+_leaf("leaf_hs_newsessionticket", "parse_tls_handshake_msg_newsessionticket", "input <= 8 bytes, declared length usize full domain")
+_leaf("leaf_hs_hello_retry_request", "parse_tls_handshake_msg_hello_retry_request", "input <= 10 bytes")
+_leaf("leaf_hs_server_hello_msg", ["parse_tls_handshake_msg_server_hello", "parse_tls_server_hello_tlsv12", "parse_tls_handshake_msg_server_hello_tlsv13draft18"], "input <= 44 bytes (session id <= 3 bytes reachable together with an extension block)")
+_leaf("leaf_hs_server_hello", ["parse_tls_handshake_server_hello", "parse_tls_server_hello_tlsv12"], "input <= 44 bytes")
+_leaf("leaf_hs_certificatestatus", ["parse_tls_handshake_msg_certificatestatus", "parse_tls_handshake_certificatestatus"], "input <= 8 bytes, 24-bit length full domain")
+_leaf("leaf_hs_next_protocol", ["parse_tls_handshake_msg_next_protocol", "parse_tls_handshake_next_protocol"], "input <= 6 bytes")
+_leaf("leaf_hs_certificate", ["parse_tls_handshake_msg_certificate", "parse_tls_certificate", "parse_certs"], "input <= 12 bytes (<= 3 certificates)")
+_leaf("leaf_hs_certificate_request", ["parse_tls_handshake_msg_certificaterequest", "parse_tls_handshake_certificaterequest", "parse_certrequest_full", "parse_certrequest_nosigalg"], "input <= 9 bytes")
+_leaf("leaf_hs_client_hello_sid33", "parse_tls_handshake_client_hello", "35..40 bytes, session-id length byte = 33")
+_leaf("mod_client_hello", "parse_tls_handshake_client_hello (list helpers replaced by their contract stubs)", "input <= 48 bytes, all lengths symbolic; session id <= 8 bytes reachable", "mod")
+_leaf("mod_client_hello_long", "parse_tls_handshake_client_hello (list helpers replaced by their contract stubs)", "input <= 80 bytes: session id 0..32 reachable with lists and extension block", "mod")
+_leaf("leaf_cipher_suites", "parse_cipher_suites", "input <= 7 bytes, declared length usize full domain")
+_leaf("leaf_compressions", "parse_compressions_algs", "input <= 4 bytes, declared length usize full domain")
+_leaf("leaf_tls_versions", "parse_tls_versions", "input <= 7 bytes")
 for _k in range(5):
     HARNESS["fd_states_cells_%d" % _k] = dict(kind="fd", proved=True, fns=["tls_state_transition", "tls_state_transition_handshake"],
         bound="states %d..%d x 22 message shapes x both directions x all 256x256 alert bytes; payload contents minimal (<= 2 bytes) - content-independence is the Verus unit's job" % (5 * _k, 5 * _k + 4))
@@ -86,6 +109,20 @@ PROPS = {
         kani=[dict(quick=["fd_record_header", "fd_raw_record_small", "fd_encrypted_small", "shim_take", "shim_be", "shim_map_parser", "shim_complete", "shim_many1", "leaf_prwh_heartbeat"],
                    thorough=["fd_raw_record_full", "fd_encrypted_full"], timeout=300, timeout_thorough=1500)],
         paired={"frame": ["fd_raw_record_small", "fd_encrypted_small"], "many": ["leaf_prwh_heartbeat", "leaf_prwh_appdata"], "plaintext": []},
+        explanation="see level_text",
+    ),
+    "C04": dict(
+        level="model_checking",
+        level_text="Dispatcher: unbounded deductive proof (Verus) on the real parse_tls_message_handshake body - type/u24 framing, type -> body-parser table for all 256 codes, body isolated to exactly the declared bytes before any body parser runs, exact consumption, Switch for unknown types, Incomplete(missing) for cut-off messages. Bodies: one Kani contract harness per body parser on the compiled code against an index-based reference decoder written from the RFCs (every field, order, presence/absence, every rejection rule of the property as its own assertion, pointer-exact slices): complete in byte contents and in every integer parameter, BOUNDED in input length. ClientHello is verified modularly against the contracts of the cipher/compression list helpers, which have their own leaf harnesses.",
+        level_note="Trusted: nom shim contracts be_u8/be_u24/take (Kani shim_be, shim_take); body parsers are uninterpreted in Verus with the assumed fact 'on success returns its own variant' (asserted by each Kani leaf); reference decoders in /verif/kani/pub_c04_handshake.rs are hand-written from RFC 5246/8446/5077/6066; contract stubs for parse_cipher_suites/parse_compressions_algs return an unconstrained (dummy) list content - the caller never inspects it.",
+        technique="contract-based deductive verification: Verus on the extracted dispatcher + Kani contract harnesses per body parser (modular for ClientHello)",
+        verus=["dispatch_hs"],
+        kani=[dict(quick=["leaf_hs_ske", "leaf_hs_serverdone", "leaf_hs_certverify", "leaf_hs_cke", "leaf_hs_finished", "fd_hs_hello_request", "fd_hs_key_update",
+                          "leaf_hs_newsessionticket", "leaf_hs_hello_retry_request", "leaf_hs_server_hello_msg", "leaf_hs_server_hello", "leaf_hs_certificatestatus",
+                          "leaf_hs_next_protocol", "leaf_hs_certificate", "mod_client_hello", "leaf_hs_client_hello_sid33", "leaf_cipher_suites", "leaf_compressions",
+                          "shim_be", "shim_take", "shim_length_data"],
+                   thorough=["leaf_hs_certificate_request", "mod_client_hello_long"], timeout=400, timeout_thorough=1500)],
+        paired={"dispatch_hs": []},
         explanation="see level_text",
     ),
 }
